@@ -182,6 +182,7 @@ structure Ctx where
   allowedSet : List Nat
   awareMax : Nat
   aliveDel : Bool
+  suspMult : Nat := 4
 
 /-- does an alive claim pass the node's admission filters (version sanity, alive delegate)? -/
 def admissible (cx : Ctx) (vsn : List Nat) (dok : Bool) : Bool :=
@@ -339,7 +340,7 @@ def handleHist (prop : String) (fs : List (String × String)) : String := Id.run
   let [al, rc, ad, am, sm] := cfgS.map (·.toNat?.getD 0) | return "PARSE cfg"
   let cfg : Cfg := { self := "S", reclaim := rc == 1, hasAliveDelegate := ad == 1, hasConflictDelegate := true,
                      awarenessMax := am, suspicionK := sm - 2 }
-  let cx : Ctx := { self := "S", reclaim := rc == 1, allowlist := al == 1, allowedSet := [0, 1, 2, 4, 7], awareMax := am, aliveDel := ad == 1 }
+  let cx : Ctx := { self := "S", reclaim := rc == 1, allowlist := al == 1, allowedSet := [0, 1, 2, 4, 7], awareMax := am, aliveDel := ad == 1, suspMult := sm }
   let some init := (get fs "init").bind parseObs | return "PARSE init"
   let mut node := initNode cfg init
   let mut pre := init
@@ -377,6 +378,28 @@ def handleHist (prop : String) (fs : List (String × String)) : String := Id.run
       match propStep prop cx pre post po with
       | some b => bad := some s!"{b}@op{idx}:{tok}"
       | none => pure ()
+    if bad.isNone && prop == "C06" then
+      match po.op with
+      | .fire nd ca _ =>
+        -- a timer may act only on the very suspicion it was armed for
+        let live := match lookup node.recs nd with
+          | some r => r.st == .suspect && r.changed == some ca
+          | none => false
+        let acted := post.recs != pre.recs || !post.outs.isEmpty
+        if acted && !live then bad := some s!"stale-suspicion-timer-killed-member:{nd}@op{idx}"
+        if !acted && live then bad := some s!"suspicion-timeout-did-not-remove-member:{nd}@op{idx}"
+      | .suspect c _ =>
+        -- a fresh suspicion on own or foreign evidence keeps the member listed and arms a timer with the right k
+        match findRec pre c.node, findRec post c.node with
+        | some p, some q =>
+          if p.st == .alive && q.st == .suspect then
+            let expK := if pre.numNodes < (cx.suspMult - 2) + 2 then 0 else cx.suspMult - 2
+            match post.timers.find? (·.node == c.node) with
+            | some t => if t.k != expK then bad := some s!"expected-confirmations:{t.k}:expected:{expK}@op{idx}"
+                        else if t.conf != [c.frm] then bad := some s!"accuser-not-recorded@op{idx}"
+            | none => bad := some s!"suspicion-without-timer@op{idx}"
+        | _, _ => pure ()
+      | _ => pure ()
     if !post.outs.isEmpty then effects := effects + 1
     node := node'
     pre := post
